@@ -199,11 +199,15 @@ Fixpoint nodup_nat (l : list nat) : bool :=
    identical or clearly separated, one fitness per uid; invalid fitness values (failed evaluations)
    are admitted where `allow_invalid` says so *)
 Definition scope_b (allow_invalid : bool) (seen : list indiv) : bool :=
+  (* class / validity / separation: over the distinct individuals (first occurrence of each uid) *)
+  let d := distinct_by_uid seen [] in
   forallb (fun x => (allow_invalid || valid (fitness x)) &&
     forallb (fun y => same_class (fitness x) (fitness y) &&
-                      implb (valid (fitness x) && valid (fitness y)) (sep_b (vals (fitness x)) (vals (fitness y))) &&
-                      implb (uid x =? uid y) (Bool.eqb (valid (fitness x)) (valid (fitness y)) &&
-                                              identical (rowf (fitness x)) (rowf (fitness y)))) seen) seen.
+                      implb (valid (fitness x) && valid (fitness y)) (sep_b (vals (fitness x)) (vals (fitness y)))) d) d &&
+  (* one fitness per uid: every individual shown carries the fitness of the first one with its uid *)
+  forallb (fun x => forallb (fun y =>
+    implb (uid x =? uid y) (same_class (fitness x) (fitness y) && Bool.eqb (valid (fitness x)) (valid (fitness y)) &&
+                            identical (rowf (fitness x)) (rowf (fitness y)))) d) seen.
 
 (* vectors of the archive members, through the uids observed (None: an archived uid was never shown) *)
 Fixpoint member_vals (seen : list indiv) (uids : list nat) : option (list (list Q)) :=
